@@ -2,6 +2,7 @@
 package main
 
 import (
+	"bufio"
 	"bytes"
 	"fmt"
 	"io"
@@ -85,7 +86,9 @@ func main() {
 			all := collect(D, nil)
 			// -1: the stream's last bytes arrive together with io.EOF; -2: every second Read
 			// returns (0, nil) first, chunks of 2
-			chunks := []int{0, 1, 2, 3, 5, -1, -2}
+			// -3..-5: the standard library's reader types (a buffered reader with bytes already
+			// waiting, in-memory readers), which offer more than Read
+			chunks := []int{0, 1, 2, 3, 5, -1, -2, -3, -4, -5}
 			t.Par(len(all), func(i int) {
 				st := all[i]
 				data, _ := streams.Wire(st.frames)
@@ -106,7 +109,23 @@ func main() {
 								src.Policy = env.FixedChunk(2)
 							}
 							var res drivers.Result
-							d.Run(src, st.side, drivers.Cfg{}, &res)
+							var rd io.Reader = src
+							switch ch {
+							case -3:
+								br := bufio.NewReaderSize(src, 64)
+								br.Peek(1)
+								rd = br
+							case -4:
+								r := bytes.NewReader(data)
+								rd = r
+							case -5:
+								r := bytes.NewBuffer(append([]byte{}, data...))
+								rd = r
+							}
+							d.Run(rd, st.side, drivers.Cfg{}, &res)
+							if ch <= -4 {
+								src.Off = len(data) - rd.(interface{ Len() int }).Len()
+							}
 							return judge(d, st, &res, src)
 						})
 					}
